@@ -1,3 +1,121 @@
-import Qfx.Spec.Codec
+/-
+  C13 — "Repeating groups survive the trip through the wire".
+  Property theorems only: structural facts of `RepeatingGroup.Write` / `Read` that the round trip rests on.  The full
+  round trip (build + parse + GetGroup, without and with dictionary, any nesting) is stated as `…_full` and checked on
+  every run by the monitor clauses `group_roundtrip` / `followers_found` and the correspondence.
+-/
+import Qfx.Lemmas.Codec
 open Qfx Qfx.Spec
-theorem C13_placeholder : True := trivial
+
+/-- `Write` starts with `<tag>=<number of entries>` -/
+theorem C13_write_starts_with_count (tag : Tag) (tmpl : List Item) (es : List (List GFld)) (tvs : List TagValue)
+    (h : writeGroup tag tmpl es = .ok tvs) : tvs.head? = some (TagValue.init tag (fmtNat es.length)) := by
+  unfold writeGroup at h
+  split at h
+  · injection h with h; subst h; rfl
+  · cases h
+  · cases h
+
+/-- "yields the same number of entries": a successful `Read` returns exactly as many entries as the NumInGroup field
+    announces (0 entries for a count of 0) — for every template, nesting and input -/
+theorem C13_read_count (fuel : Nat) (tmpl : List Item) (t0 : TagValue) (rest : List TagValue)
+    (r : List TagValue × List GEntry) (h : readGroup fuel tmpl (t0 :: rest) = .ok r) :
+    ∃ n, atoi t0.value = .ok n ∧ (r.2.length : Int) = n := by
+  cases fuel with
+  | zero => simp [readGroup] at h
+  | succ fuel =>
+    simp only [readGroup] at h
+    split at h
+    · cases h
+    · cases h
+    · rename_i n hn
+      refine ⟨n, hn, ?_⟩
+      split at h
+      · rename_i h0; injection h with h; subst h; simp [h0]
+      · split at h
+        · rename_i tv' groups hl
+          split at h
+          · cases h
+          · rename_i hc; injection h with h; subst h
+            simpa using hc
+        · cases h
+        · cases h
+
+/-- a count of zero consumes just the NumInGroup field -/
+theorem C13_read_zero (fuel : Nat) (tmpl : List Item) (t0 : TagValue) (rest : List TagValue) (h0 : atoi t0.value = .ok 0) :
+    readGroup (fuel + 1) tmpl (t0 :: rest) = .ok (rest, []) := by
+  simp [readGroup, h0]
+
+/-- "the fields following the group are still found": the read loop stops at the first field whose tag is not in the
+    template and hands back everything from that field on, untouched -/
+theorem C13_read_stops_at_follower (fuel : Nat) (tmpl : List Item) (f : TagValue) (rest : List TagValue)
+    (done : List GEntry) (cur : Option GEntry) (hf : findItem tmpl f.tag = none) :
+    readLoop (fuel + 1) tmpl (f :: rest) done cur = .ok (f :: rest, finishGroups done cur) := by
+  simp [readLoop, hf]
+
+/-- one element of an entry: a template element that is not the delimiter is recorded in the current entry under its
+    tag, with the rest of the array as its range, and the loop continues behind it -/
+theorem C13_read_member (fuel : Nat) (d : Item) (tmpl : List Item) (f : TagValue) (rest : List TagValue)
+    (done : List GEntry) (g : GEntry) (t : Tag) (hf : findItem (d :: tmpl) f.tag = some (.elem t)) (hd : f.tag ≠ d.tag) :
+    readLoop (fuel + 1) (d :: tmpl) (f :: rest) done (some g) =
+      readLoop fuel (d :: tmpl) rest done (some (g.put f.tag (f :: rest))) := by
+  simp [readLoop, hf, hd]
+
+/-- the delimiter closes the current entry and opens a new one -/
+theorem C13_read_delimiter (fuel : Nat) (d : Tag) (tmpl : List Item) (f : TagValue) (rest : List TagValue)
+    (done : List GEntry) (cur : Option GEntry) (hd : f.tag = d) :
+    readLoop (fuel + 1) (.elem d :: tmpl) (f :: rest) done cur =
+      readLoop fuel (.elem d :: tmpl) rest (finishGroups done cur) (some (GEntry.empty.put f.tag (f :: rest))) := by
+  simp [readLoop, findItem, Item.tag, hd]
+
+/-- with a dictionary (after the fix of D6): a field that follows a nested group is attributed to the innermost
+    enclosing group that lists it; `popToMember` returns a proper prefix of the tag stack, or `none` (the group ends) -/
+theorem C13_pop_returns_shorter_stack (d : Dicts) (fields : List TagValue) (hd : FieldMap) (t : Tag) (rev : List Tag)
+    (tags' : List Tag) (gf : List DNode) (h : popToMember d fields hd t rev = some (tags', gf)) :
+    tags'.length < rev.length ∧ isGroupMember t gf = true := by
+  induction rev with
+  | nil => simp [popToMember] at h
+  | cons x r ih =>
+    unfold popToMember at h
+    split at h
+    · cases h
+    · simp only [] at h
+      split at h
+      · rename_i hm
+        injection h with h
+        simp only [Prod.mk.injEq] at h
+        obtain ⟨h1, h2⟩ := h
+        subst h1; subst h2
+        exact ⟨by simp, hm⟩
+      · have := ih h
+        exact ⟨by simp only [List.length_cons]; omega, this.2⟩
+
+/-! ## not (yet) theorems -/
+
+/-- round trip without dictionary, any nesting depth: what `getgrp` must observe after build + parse -/
+def C13_roundtrip_nodict_full : Prop :=
+  ∀ (a : Abs) (gt : Tag) (tmpl : List Item) (es : List (List GFld)) (m p : Message) (bytes : Bytes) (m' : Message) (f : Field),
+    alFind a.b gt = some (.grp tmpl es) → groupClaimable a gt tmpl es = true → reparsable Dicts.none a = true →
+    m.build Fixes.cur = .ok (bytes, m') → parseMessage Fixes.cur Dicts.none bytes = .ok p →
+    alFind p.body.lookup gt = some f →
+    ∃ gs, getGroup tmpl (f.full p.fields) = .ok gs ∧ gs.length = es.length
+
+/-- the same with the dictionary that defines the group (false on the unchanged code: D6) -/
+def C13_roundtrip_dict_full : Prop :=
+  ∀ (d : Dicts) (a : Abs) (gt : Tag) (tmpl : List Item) (es : List (List GFld)) (m p : Message) (bytes : Bytes) (m' : Message) (f : Field),
+    alFind a.b gt = some (.grp tmpl es) → groupClaimable a gt tmpl es = true → reparsable d a = true →
+    m.build Fixes.cur = .ok (bytes, m') → parseMessage Fixes.cur d bytes = .ok p →
+    alFind p.body.lookup gt = some f →
+    (∃ gs, getGroup tmpl (f.full p.fields) = .ok gs ∧ gs.length = es.length) ∧
+    ∀ t, t ≠ gt → (alFind a.b t).isSome → (alFind p.body.lookup t).isSome
+
+/-! non-vacuity: a two-entry group with a follower, read back by the model -/
+example :
+    (getGroup [.elem 448, .elem 447]
+      [⟨453, [50], []⟩, ⟨448, [97], []⟩, ⟨447, [68], []⟩, ⟨448, [98], []⟩, ⟨58, [120], []⟩]).isOk = true := by decide
+
+/- Clause checklist (properties.jsonl C13):
+   "same number of entries"                                  C13_read_count, C13_write_starts_with_count, C13_read_zero
+   "same fields and values in the same order, nested groups" C13_read_member, C13_read_delimiter (one step each); whole: C13_roundtrip_nodict_full
+   "fields following the group are still found"              C13_read_stops_at_follower; with dictionary C13_pop_returns_shorter_stack; whole: …_dict_full
+   monitor clauses: group_roundtrip{dict=api|n|a|ta,nested=y|n}, followers_found{dict=…} -/
